@@ -572,10 +572,22 @@ def run_job(job, io):
             cm = _DecoratedBlock(decorated[(mode, kns)])
         else:
             cm = optree.dict_insertion_ordered(mode, namespace=ns)
+        # the other direction: an iterator created (and started) BEFORE the block keeps the mode of its creation while it is
+        # advanced INSIDE the block - entering a block must not change a traversal that began outside it
+        pre_eff = model.eff(kns)
+        pre_it = optree.tree_iter({'zz': dict(PROBE_DICT), 'aa': 0, 'mm': (defaultdict(int, PROBE_DICT),)}, namespace=kns)
+        pre_first = next(pre_it)
         try:
             with cm:
                 model.flags[kns] = mode
                 step('enter#%d' % depth, before_enter)
+                pre_got = [pre_first] + list(pre_it)
+                pre_base = [PROBE_DICT[k] for k in (PROBE_KEYS_INS if pre_eff else PROBE_KEYS_SORTED)]
+                pre_want = (pre_base + [0] + pre_base) if pre_eff else ([0] + pre_base + pre_base)
+                probes['iterator-across-enter'] += 1
+                if pre_got != pre_want:
+                    viol('iterator-mode', 'iterator-entered', 'an iterator created under mode %s in namespace %r and advanced inside a block that sets mode %s yields %r; expected %r' % (
+                        pre_eff, kns, mode, pre_got, pre_want))
                 # an iterator created inside the block keeps the mode it was created under
                 it = optree.tree_iter(dict(PROBE_DICT), namespace=kns)
                 pending_iters.append((it, model.eff(kns), kns))
